@@ -104,8 +104,18 @@ def check_case(case):
 
     out = []
     rows = build(case)
-    df = pd.DataFrame(rows, columns=["chromosome", "start", "end", "gene", "log2", "weight"])
     from vk import gen
+
+    # the chromosome blocks may arrive in another order than the genome's (chr2 before chr1, `sort -k1,1` order): a third
+    # of the multi-chromosome cases reverse or rotate the blocks (seeded change C11j emitted arms in genome order while
+    # the per-arm results are attached to rows by position)
+    names = [c["name"] for c in case["chroms"]]
+    if len(names) > 1:
+        k = gen.pick(case, "blocks", 6) if "block_order" not in case else case["block_order"]
+        if k in (1, 2):
+            names = names[::-1] if k == 1 else names[1:] + names[:1]
+            rows = [r for nm in names for r in rows if r[0] == nm]
+    df = pd.DataFrame(rows, columns=["chromosome", "start", "end", "gene", "log2", "weight"])
 
     cnarr = CopyNumArray(gen.relabel(df, gen.spec_for(case)), {"sample_id": "s"})
     segs = segmentation.do_segmentation(cnarr, case["method"])
